@@ -529,3 +529,25 @@ def same_results(a_obs, b_obs, fields=("res", "peer", "sink", "avail", "maxdata"
             if x != y:
                 return i, f, str(x)[:100], str(y)[:100]
     return None
+
+
+def o_healthy(scn, obs, runner):
+    """Against a healthy, conforming device (no faults, no stall, no corruption, no device-side failure, default timeouts) every
+    operation on a connected device must return normally: an exception there means the library mishandled a legal device behaviour
+    (some chunking, packetisation, id value, ordering).  The specific property oracles then say what the result must be."""
+    if not scn.get("healthy"):
+        return []
+    fails = []
+    avail = bool(scn.get("preset", {}).get("avail", 0))
+    for i, (op, o) in enumerate(zip(scn["ops"], obs)):
+        k = op["op"]
+        if k == "connect":
+            avail = res_ok(o)
+        if k == "close":
+            avail = False
+        if not res_ok(o):
+            if k not in ("connect", "close") and (not avail or op.get("path") == b""):
+                continue
+            fails.append(dict(op=i, why="healthy device, legal behaviour, but %s raised %s" % (k, o["res"][:80])))
+            break
+    return fails
